@@ -164,3 +164,66 @@ Proof.
     unfold group_check in Hc. apply (first_bad_none_inv _ _ _ _ _ Hc). apply filter_In. split; auto.
     apply negb_true_iff. destruct (Z.eqb_spec g 0); destruct (Z.eqb_spec r (sp_id a)); cbn; auto. exfalso. apply Hne; auto.
 Qed.
+
+(* ------------------------------------------------------------------ round 5: what verdict 0 of the plain-frame scenario means *)
+(* for ANY instruction lists (in the check: the implementation's real prolog and epilog): verdict 0 says that the prolog runs on
+   the proven machine from the scenario's entry state, the epilog runs after the most hostile confined body, returns to the
+   caller's return address with the required sp, and every preserved register of every group has its entry value on its save
+   width.  Together with exec_frame_ok_x86 / _a64 (the model's own lists get verdict 0) the verdict is a decision procedure whose
+   both directions are proved. *)
+Lemma first_bad_some_in g w s0 s3 : forall ids r, first_bad g ids w s0 s3 = Some r -> In r ids.
+Proof.
+  induction ids as [|x rest IH]; intros r H; cbn [first_bad] in H; [discriminate|].
+  destruct (trunc w (st_reg s3 g x) =? trunc w (st_reg s0 g x)); [right; apply IH; exact H | left; congruence].
+Qed.
+
+Lemma group_check_nonneg a preserved srsize s0 s3 g r : group_check a preserved srsize s0 s3 g = Some r -> 0 <= r.
+Proof.
+  unfold group_check. intros H. apply first_bad_some_in in H. apply filter_In in H. destruct H as [H _].
+  apply bits_of_In in H. lia.
+Qed.
+
+Theorem exec_frame_sound a pro epi sp0 ra dirty preserved srsize has_fp csize local_off lsize cleanup :
+  fst (exec_frame a pro epi sp0 ra dirty preserved srsize has_fp csize local_off lsize cleanup) = 0 ->
+  let s0 := init_state a sp0 ra in
+  exists s1 s3,
+    run a pro s0 = Some s1 /\
+    snd (exec_frame a pro epi sp0 ra dirty preserved srsize has_fp csize local_off lsize cleanup) = st_reg s1 0 (sp_id a) /\
+    run a epi (poison_body a s1 dirty has_fp csize local_off lsize) = Some s3 /\
+    st_ret s3 = Some ra /\ st_reg s3 0 (sp_id a) = sp0 + ret_addr_size a + cleanup /\
+    (forall g r, 0 <= g <= 3 -> In r (bits_of 32 (qget preserved g)) -> ~ (g = 0 /\ r = sp_id a) ->
+       trunc (if g =? 0 then reg_size a else qget srsize g) (st_reg s3 g r) = trunc (if g =? 0 then reg_size a else qget srsize g) (st_reg s0 g r)).
+Proof.
+  unfold exec_frame. cbv beta zeta. set (s0 := init_state a sp0 ra).
+  destruct (run a pro s0) as [s1|] eqn:E1; [|intros HH; cbn in HH; discriminate HH].
+  destruct (run a epi _) as [s3|] eqn:E4; [|intros HH; cbn in HH; discriminate HH].
+  destruct (st_ret s3) as [t|] eqn:E5; [|intros HH; cbn in HH; discriminate HH].
+  destruct (Z.eqb_spec t ra) as [Et|Et]; [|intros HH; cbn in HH; discriminate HH]. cbn [negb].
+  destruct (Z.eqb_spec (st_reg s3 0 (sp_id a)) (sp0 + ret_addr_size a + cleanup)) as [Es|Es]; [|intros HH; cbn in HH; discriminate HH]. cbn [negb].
+  fold (group_check a preserved srsize s0 s3 0). fold (group_check a preserved srsize s0 s3 1).
+  fold (group_check a preserved srsize s0 s3 2). fold (group_check a preserved srsize s0 s3 3).
+  destruct (group_check a preserved srsize s0 s3 0) eqn:C0; [apply group_check_nonneg in C0; intros HH; cbn [fst] in HH; lia|].
+  destruct (group_check a preserved srsize s0 s3 1) eqn:C1; [apply group_check_nonneg in C1; intros HH; cbn [fst] in HH; lia|].
+  destruct (group_check a preserved srsize s0 s3 2) eqn:C2; [apply group_check_nonneg in C2; intros HH; cbn [fst] in HH; lia|].
+  destruct (group_check a preserved srsize s0 s3 3) eqn:C3; [apply group_check_nonneg in C3; intros HH; cbn [fst] in HH; lia|].
+  intros _. exists s1, s3. repeat match goal with |- _ /\ _ => split end; auto.
+  - rewrite E5. subst t. reflexivity.
+  - intros g r Hg Hin Hne.
+    assert (Hc : group_check a preserved srsize s0 s3 g = None).
+    { assert (g = 0 \/ g = 1 \/ g = 2 \/ g = 3) as [->|[->|[->| ->]]] by lia; assumption. }
+    unfold group_check in Hc. apply (first_bad_none_inv _ _ _ _ _ Hc). apply filter_In. split; auto.
+    apply negb_true_iff. destruct (Z.eqb_spec g 0); destruct (Z.eqb_spec r (sp_id a)); cbn; auto. exfalso. apply Hne; auto.
+Qed.
+
+(* non-vacuity: the premise "verdict 0" is reachable (the Win64 example frame, model lists), and the verdict discriminates: the same
+   frame with the epilog's first instruction (the reload of xmm6) dropped gets verdict 132 + 6 (vector register 6 not restored) *)
+From Verif Require Import Frame.FrameExamples.
+
+Definition ex_exec (epi : list instr) : Z :=
+  let f := ex_win64 in let o := finalize f in
+  fst (exec_frame (fi_arch f) (x86_prolog f o) epi (2 ^ 40 - 8) 4242 (fo_dirty o) (cc_preserved (fi_cc f)) (cc_srsize (fi_cc f))
+                  (fi_has_fp f) (fi_call_size f) (fo_local_off o) (fi_local_size f) (fo_callee_cleanup o)).
+
+Lemma ex_exec_frame_verdicts :
+  ex_exec (x86_epilog ex_win64 (finalize ex_win64)) = 0 /\ ex_exec (tl (x86_epilog ex_win64 (finalize ex_win64))) = 138.
+Proof. split; vm_compute; reflexivity. Qed.
